@@ -454,6 +454,52 @@ func (e *Engine) intrinsic(name string, fn *ssa.Function) (handler, bool) {
 			}
 			return IntC(int64(strings.IndexByte(x, byte(b))))
 		}, true
+	case "(*strings.Builder).String":
+		// the real body goes through unsafe.String(unsafe.SliceData(buf)): same result as string(buf)
+		return func(c *frame, f *ssa.Function, a []value) value {
+			p, ok := a[0].(*value)
+			if !ok || p == nil {
+				panic(targetPanic{"nil pointer dereference (strings.Builder)"})
+			}
+			st := (*p).(structure)
+			bt := deref(f.Signature.Recv().Type()).Underlying().(*types.Struct)
+			for i := 0; i < bt.NumFields(); i++ {
+				if bt.Field(i).Name() == "buf" {
+					return e.conv(types.Typ[types.String], bt.Field(i).Type(), st[i])
+				}
+			}
+			unsup("strings.Builder layout")
+			return nil
+		}, true
+	case "internal/abi.NoEscape", "internal/abi.Escape":
+		return func(c *frame, f *ssa.Function, a []value) value { return a[0] }, true
+	case "internal/bytealg.CountString":
+		return func(c *frame, f *ssa.Function, a []value) value {
+			x, ok1 := a[0].(string)
+			b, ok2 := termConstInt(a[1])
+			if !ok1 || !ok2 {
+				unsup("CountString on symbolic values")
+			}
+			return IntC(int64(strings.Count(x, string([]byte{byte(b)}))))
+		}, true
+	case "internal/bytealg.IndexString":
+		return func(c *frame, f *ssa.Function, a []value) value {
+			x, ok1 := a[0].(string)
+			y, ok2 := a[1].(string)
+			if !ok1 || !ok2 {
+				unsup("IndexString on symbolic values")
+			}
+			return IntC(int64(strings.Index(x, y)))
+		}, true
+	case "internal/bytealg.LastIndexByteString":
+		return func(c *frame, f *ssa.Function, a []value) value {
+			x, ok1 := a[0].(string)
+			b, ok2 := termConstInt(a[1])
+			if !ok1 || !ok2 {
+				unsup("LastIndexByteString on symbolic values")
+			}
+			return IntC(int64(strings.LastIndexByte(x, byte(b))))
+		}, true
 	case "internal/bytealg.IndexByte", "bytes.IndexByte":
 		return func(c *frame, f *ssa.Function, a []value) value {
 			xs, ok := a[0].([]value)
